@@ -1,4 +1,337 @@
 import KeepVerif.Model.C27
 import KeepVerif.Proofs.C27Script
+import KeepVerif.Props.C28
+/-!
+# C27 — Signed wallet transactions pass Bitcoin script validation
+
+Theorems over `Model/C27.lean` (the builder) and `Model/C27Script.lean` (the txscript model).
+`hash160`, `sha256`, the signature hash, signature encoding and ECDSA verification are parameters
+(`TxCtx`); all statements hold for every instance.  Faithfulness of the interpreter model to btcd
+is validated differentially by the harness (A-btcd), not proved.
+-/
 namespace KeepVerif.C27
+open KeepVerif.Script
+set_option linter.unusedSimpArgs false
+
+/-! ## classification of the four wallet locking scripts -/
+
+theorem classify_p2pkh (h : Bytes) (hl : h.length = 20) : classify (p2pkh h) = .pkh := by
+  simp [classify, parse_p2pkh h hl, classifyOps, isPubkeyHash, hl]
+
+theorem classify_p2wpkh (h : Bytes) (hl : h.length = 20) : classify (p2wpkh h) = .wpkh := by
+  simp [classify, parse_p2wpkh h hl, classifyOps, isPubkeyHash, isWitnessPubKeyHash, hl]
+
+theorem classify_p2sh (h : Bytes) (hl : h.length = 20) : classify (p2sh h) = .sh := by
+  simp [classify, parse_p2sh h hl, classifyOps, isPubkeyHash, isWitnessPubKeyHash, isScriptHash, hl]
+
+theorem classify_p2wsh (h : Bytes) (hl : h.length = 32) : classify (p2wsh h) = .wsh := by
+  simp [classify, parse_p2wsh h hl, classifyOps, isPubkeyHash, isWitnessPubKeyHash, isScriptHash,
+    isWitnessScriptHash, hl]
+
+theorem wit_p2pkh (h : Bytes) (hl : h.length = 20) : isWitnessProgramBytes (p2pkh h) = false := by
+  simp [isWitnessProgramBytes, parse_p2pkh h hl, witnessProgram?]
+
+theorem wit_p2sh (h : Bytes) (hl : h.length = 20) : isWitnessProgramBytes (p2sh h) = false := by
+  simp [isWitnessProgramBytes, parse_p2sh h hl, witnessProgram?]
+
+theorem wit_p2wpkh (h : Bytes) (hl : h.length = 20) : isWitnessProgramBytes (p2wpkh h) = true := by
+  have hlen : (p2wpkh h).length = 22 := by simp [p2wpkh, hl]
+  simp [isWitnessProgramBytes, hlen, parse_p2wpkh h hl, witnessProgram?, canonicalPush, hl]
+
+theorem wit_p2wsh (h : Bytes) (hl : h.length = 32) : isWitnessProgramBytes (p2wsh h) = true := by
+  have hlen : (p2wsh h).length = 34 := by simp [p2wsh, hl]
+  simp [isWitnessProgramBytes, hlen, parse_p2wsh h hl, witnessProgram?, canonicalPush, hl]
+
+theorem bip143Code_p2wpkh (h : Bytes) (hl : h.length = 20) : bip143Code (p2wpkh h) = p2pkh h := by
+  simp [bip143Code, parse_p2wpkh h hl, hl]
+
+theorem bip143Code_p2pkh (h : Bytes) (hl : h.length = 20) : bip143Code (p2pkh h) = p2pkh h := by
+  simp [bip143Code, parse_p2pkh h hl]
+
+/-! ## `digest_args_correct`: the digest the builder has signed is the digest CHECKSIG checks -/
+
+/-- P2PKH: script code = the locking script, legacy sigversion. -/
+theorem digest_args_p2pkh {D} (t : TxCtx D) (i : Nat) (h : Bytes) (v : Int) (hl : h.length = 20) :
+    ∃ b, addInput i ⟨.pkh, p2pkh h, v, []⟩ = .ok b ∧
+      builderDigest t i b = checkSigDigest (t.at i v) false (p2pkh h) sigHashAll := by
+  refine ⟨_, by simp [addInput, classify_p2pkh h hl, wit_p2pkh h hl]; rfl, ?_⟩
+  simp [builderDigest, checkSigDigest, TxCtx.at]
+
+/-- P2WPKH: the builder passes the P2WPKH script, btcd's engine runs the synthesised P2PKH
+    script; BIP-143 serialises the same script code for both, with the UTXO value. -/
+theorem digest_args_p2wpkh {D} (t : TxCtx D) (i : Nat) (h : Bytes) (v : Int) (hl : h.length = 20) :
+    ∃ b, addInput i ⟨.pkh, p2wpkh h, v, []⟩ = .ok b ∧
+      builderDigest t i b = checkSigDigest (t.at i v) true (p2pkh h) sigHashAll := by
+  refine ⟨_, by simp [addInput, classify_p2wpkh h hl, wit_p2wpkh h hl]; rfl, ?_⟩
+  simp [builderDigest, checkSigDigest, TxCtx.at, bip143Code_p2wpkh h hl, bip143Code_p2pkh h hl]
+
+/-- P2SH: script code = the redeem script (not the locking script), legacy sigversion. -/
+theorem digest_args_p2sh {D} (t : TxCtx D) (i : Nat) (h redeem : Bytes) (v : Int)
+    (hl : h.length = 20) :
+    ∃ b, addInput i ⟨.sh, p2sh h, v, redeem⟩ = .ok b ∧
+      builderDigest t i b = checkSigDigest (t.at i v) false redeem sigHashAll := by
+  refine ⟨_, by simp [addInput, classify_p2sh h hl, wit_p2sh h hl]; rfl, ?_⟩
+  simp [builderDigest, checkSigDigest, TxCtx.at]
+
+/-- P2WSH: script code = the witness script, witness sigversion, the UTXO value. -/
+theorem digest_args_p2wsh {D} (t : TxCtx D) (i : Nat) (h redeem : Bytes) (v : Int)
+    (hl : h.length = 32) :
+    ∃ b, addInput i ⟨.sh, p2wsh h, v, redeem⟩ = .ok b ∧
+      builderDigest t i b = checkSigDigest (t.at i v) true redeem sigHashAll := by
+  refine ⟨_, by simp [addInput, classify_p2wsh h hl, wit_p2wsh h hl]; rfl, ?_⟩
+  simp [builderDigest, checkSigDigest, TxCtx.at]
+
+/-- the unlocking data the builder produces for input `i` given the signature container -/
+def signedInput (i : Nat) (s : InSpec) (sg : SigC) : Option Unlock :=
+  match addInput i s with
+  | .ok b => unlockFor b sg
+  | .error _ => none
+
+/-- what the wallet's signer delivers for input `i`: a canonically encoded (DER, low S — tss-lib and
+    `btcec.Signature.Serialize` both normalise S) signature by the key with compressed public key
+    `pk` that verifies for the digest the builder computed for that input. -/
+structure WalletSig {D} (t : TxCtx D) (i : Nat) (s : InSpec) (pk der : Bytes) : Prop where
+  enc : t.sigEnc der = none
+  derLen : 1 ≤ der.length ∧ der.length ≤ 519
+  compressed : isCompressedPk pk = true
+  parses : t.parsePk pk = true
+  valid : ∀ b, addInput i s = .ok b → t.verify pk der (builderDigest t i b) = true
+
+theorem pk_len {pk : Bytes} (h : isCompressedPk pk = true) : pk.length = 33 := by
+  simp [isCompressedPk] at h; exact h.1
+
+theorem itemsOk_sig_pk {pk der : Bytes} (h1 : 1 ≤ der.length ∧ der.length ≤ 519)
+    (h2 : isCompressedPk pk = true) : ItemsOk [der ++ [sigHashAll], pk] := by
+  have := pk_len h2
+  intro x hx
+  simp at hx
+  rcases hx with rfl | rfl
+  · simp; omega
+  · omega
+
+/-- C27 `input_spends`, P2PKH wallet input. -/
+theorem input_spends_p2pkh {D} (t : TxCtx D) (i : Nat) (pk der : Bytes) (v : Int)
+    (hl : (t.hash160 pk).length = 20)
+    (w : WalletSig t i ⟨.pkh, p2pkh (t.hash160 pk), v, []⟩ pk der) :
+    ∃ u, signedInput i ⟨.pkh, p2pkh (t.hash160 pk), v, []⟩ ⟨pk, der⟩ = some u ∧
+      validate t i ⟨.pkh, p2pkh (t.hash160 pk), v, []⟩ u = .ok () := by
+  obtain ⟨b, hb, hd⟩ := digest_args_p2pkh t i (t.hash160 pk) v hl
+  have hok := itemsOk_sig_pk w.derLen w.compressed
+  have hpl := pk_len w.compressed
+  have hbw : b.witness = false ∧ b.preScriptSig = [] := by
+    simp [addInput, classify_p2pkh _ hl, wit_p2pkh _ hl] at hb
+    subst hb; simp
+  have g : GoodSig (t.at i v) false (p2pkh (t.hash160 pk)) pk der sigHashAll :=
+    ⟨by decide, w.enc, w.compressed, w.parses, by rw [← hd]; exact w.valid b hb⟩
+  have hs : ¬ (der.length + 1 > 520) := by have := w.derLen; omega
+  have hp : ¬ (pk.length > 520) := by omega
+  refine ⟨(pushAll [der ++ [sigHashAll], pk], []), ?_, ?_⟩
+  · simp [signedInput, hb, unlockFor, hbw.1, hbw.2, pushAll, hs, hp]
+  · unfold validate
+    simp only []
+    rw [p2pkh_reduces (t.at i v) _ pk _ hl hok, p2pkh_run _ _ _ _ _ hl]
+    have : (t.at i v).hash160 pk = t.hash160 pk := rfl
+    simp [this, opCheckSig_good _ _ _ _ _ _ [] g, checkFinal, asBool]
+
+/-- C27 `input_spends`, P2WPKH wallet input. -/
+theorem input_spends_p2wpkh {D} (t : TxCtx D) (i : Nat) (pk der : Bytes) (v : Int)
+    (hl : (t.hash160 pk).length = 20)
+    (w : WalletSig t i ⟨.pkh, p2wpkh (t.hash160 pk), v, []⟩ pk der) :
+    ∃ u, signedInput i ⟨.pkh, p2wpkh (t.hash160 pk), v, []⟩ ⟨pk, der⟩ = some u ∧
+      validate t i ⟨.pkh, p2wpkh (t.hash160 pk), v, []⟩ u = .ok () := by
+  obtain ⟨b, hb, hd⟩ := digest_args_p2wpkh t i (t.hash160 pk) v hl
+  have hpl := pk_len w.compressed
+  have hbw : b.witness = true ∧ b.preWitness = [] := by
+    simp [addInput, classify_p2wpkh _ hl, wit_p2wpkh _ hl] at hb
+    subst hb; simp
+  have g : GoodSig (t.at i v) true (p2pkh (t.hash160 pk)) pk der sigHashAll :=
+    ⟨by decide, w.enc, w.compressed, w.parses, by rw [← hd]; exact w.valid b hb⟩
+  refine ⟨([], [der ++ [sigHashAll], pk]), ?_, ?_⟩
+  · simp [signedInput, hb, unlockFor, hbw.1, hbw.2]
+  · unfold validate
+    simp only []
+    rw [p2wpkh_reduces (t.at i v) _ pk _ hl (by have := w.derLen; simp; omega) (by omega),
+      p2pkh_run _ _ _ _ _ hl]
+    have : (t.at i v).hash160 pk = t.hash160 pk := rfl
+    simp [this, opCheckSig_good _ _ _ _ _ _ [] g, checkFinal, asBool]
+
+/-- C27 `input_spends`, P2SH input: the builder's signature script makes the engine run exactly the
+    redeem script on `[pk, sig]` (then the final true / clean-stack check). -/
+theorem input_p2sh_reduces {D} (t : TxCtx D) (i : Nat) (pk der redeem : Bytes) (v : Int)
+    (hl : (t.hash160 redeem).length = 20) (hr : 2 ≤ redeem.length ∧ redeem.length ≤ 520)
+    (hd : 1 ≤ der.length ∧ der.length ≤ 519) (hc : isCompressedPk pk = true) :
+    ∃ u, signedInput i ⟨.sh, p2sh (t.hash160 redeem), v, redeem⟩ ⟨pk, der⟩ = some u ∧
+      validate t i ⟨.sh, p2sh (t.hash160 redeem), v, redeem⟩ u =
+        (match runScript (t.at i v) false redeem [pk, der ++ [sigHashAll]] with
+         | .error e => .error e
+         | .ok st => checkFinal false st) := by
+  have hpl := pk_len hc
+  have hok2 := itemsOk_sig_pk hd hc
+  have hok : ItemsOk ([der ++ [sigHashAll], pk] ++ [redeem]) := by
+    intro x hx
+    simp only [List.mem_append, List.mem_singleton] at hx
+    rcases hx with hx | rfl
+    · exact hok2 x hx
+    · exact hr
+  have hs : ¬ (der.length + 1 > 520) := by omega
+  have hp : ¬ (pk.length > 520) := by omega
+  have hrl : ¬ (redeem.length > 520) := by omega
+  have hr0 : redeem.length > 0 := by omega
+  have hlen : (pushAll ([der ++ [sigHashAll], pk] ++ [redeem])).length ≤ 10000 := by
+    have a := C28.pushData_length_le (der ++ [sigHashAll]) (by simp; omega)
+    have b := C28.pushData_length_le pk (by omega)
+    have c := C28.pushData_length_le redeem hr.1
+    simp only [pushAll, List.cons_append, List.nil_append, List.flatMap_cons, List.flatMap_nil,
+      List.append_nil, List.length_append] at a b c ⊢
+    simp at a
+    omega
+  refine ⟨(pushAll ([der ++ [sigHashAll], pk] ++ [redeem]), []), ?_, ?_⟩
+  · simp [signedInput, addInput, classify_p2sh _ hl, wit_p2sh _ hl, unlockFor, pushAll, hs, hp, hrl, hr0]
+  · unfold validate
+    simp only []
+    have := p2sh_reduces (t.at i v) [der ++ [sigHashAll], pk] redeem hok hl hlen
+    simp only [List.reverse_cons, List.reverse_nil, List.nil_append, List.cons_append] at this
+    exact this
+
+/-- C27 `input_spends`, P2WSH input: the builder's witness makes the engine run exactly the
+    witness script on `[pk, sig]` with the witness sigversion. -/
+theorem input_p2wsh_reduces {D} (t : TxCtx D) (i : Nat) (pk der redeem : Bytes) (v : Int)
+    (hl : (t.sha256 redeem).length = 32) (hr : redeem.length ≤ 10000) (hp : (parse redeem).isSome)
+    (hd : 1 ≤ der.length ∧ der.length ≤ 519) (hc : isCompressedPk pk = true) :
+    ∃ u, signedInput i ⟨.sh, p2wsh (t.sha256 redeem), v, redeem⟩ ⟨pk, der⟩ = some u ∧
+      validate t i ⟨.sh, p2wsh (t.sha256 redeem), v, redeem⟩ u =
+        (match runScript (t.at i v) true redeem [pk, der ++ [sigHashAll]] with
+         | .error e => .error e
+         | .ok st => checkFinal true st) := by
+  have hpl := pk_len hc
+  have hsz : tooBigElement [der ++ [sigHashAll], pk] = false := by
+    simp [tooBigElement]; omega
+  refine ⟨([], [der ++ [sigHashAll], pk, redeem]), ?_, ?_⟩
+  · simp [signedInput, addInput, classify_p2wsh _ hl, wit_p2wsh _ hl, unlockFor]
+  · unfold validate
+    simp only []
+    have := p2wsh_reduces (t.at i v) [der ++ [sigHashAll], pk] redeem hl hr hp hsz
+    simp only [List.reverse_cons, List.reverse_nil, List.nil_append, List.cons_append] at this
+    exact this
+
+/-- C27 for deposit inputs (both P2SH and P2WSH): a deposit whose wallet public key hash is the
+    hash of the signing key is swept by the builder's unlocking data. -/
+theorem deposit_input_spends {D} (t : TxCtx D) (i : Nat) (k : C28.Kind) (d : C28.Deposit)
+    (wf : C28.WellFormed d) (pk der : Bytes) (v : Int)
+    (h160 : (t.hash160 (C28.template d)).length = 20) (hsha : (t.sha256 (C28.template d)).length = 32)
+    (hw : t.hash160 pk = d.walletPKH)
+    (w : WalletSig t i ⟨.sh, C28.lockingScript k (match k with
+            | .p2sh => t.hash160 (C28.template d) | .p2wsh => t.sha256 (C28.template d)), v,
+          C28.template d⟩ pk der) :
+    ∃ u, signedInput i ⟨.sh, C28.lockingScript k (match k with
+            | .p2sh => t.hash160 (C28.template d) | .p2wsh => t.sha256 (C28.template d)), v,
+          C28.template d⟩ ⟨pk, der⟩ = some u ∧
+      validate t i ⟨.sh, C28.lockingScript k (match k with
+            | .p2sh => t.hash160 (C28.template d) | .p2wsh => t.sha256 (C28.template d)), v,
+          C28.template d⟩ u = .ok () := by
+  have tl := C28.template_length_bounds d wf
+  cases k with
+  | p2sh =>
+    simp only [C28.lockingScript] at w ⊢
+    obtain ⟨u, hu, hv⟩ := input_p2sh_reduces t i pk der (C28.template d) v h160 (by omega) w.derLen w.compressed
+    obtain ⟨b, hb, hdg⟩ := digest_args_p2sh t i (t.hash160 (C28.template d)) (C28.template d) v h160
+    have g : GoodSig (t.at i v) false (C28.template d) pk der sigHashAll :=
+      ⟨by decide, w.enc, w.compressed, w.parses, by rw [← hdg]; exact w.valid b hb⟩
+    refine ⟨u, hu, ?_⟩
+    rw [hv, C28.deposit_runScript _ _ d wf]
+    have : (t.at i v).hash160 pk = d.walletPKH := hw
+    simp [C28.spendSpec, this, opCheckSig_good _ _ _ _ _ _ [] g, checkFinal, asBool]
+  | p2wsh =>
+    simp only [C28.lockingScript] at w ⊢
+    have hp : (parse (C28.template d)).isSome := by rw [C28.script_parses d wf]; rfl
+    obtain ⟨u, hu, hv⟩ := input_p2wsh_reduces t i pk der (C28.template d) v hsha (by omega) hp w.derLen w.compressed
+    obtain ⟨b, hb, hdg⟩ := digest_args_p2wsh t i (t.sha256 (C28.template d)) (C28.template d) v hsha
+    have g : GoodSig (t.at i v) true (C28.template d) pk der sigHashAll :=
+      ⟨by decide, w.enc, w.compressed, w.parses, by rw [← hdg]; exact w.valid b hb⟩
+    refine ⟨u, hu, ?_⟩
+    rw [hv, C28.deposit_runScript _ _ d wf]
+    have : (t.at i v).hash160 pk = d.walletPKH := hw
+    simp [C28.spendSpec, this, opCheckSig_good _ _ _ _ _ _ [] g, checkFinal, asBool]
+
+/-! ## `bad_signature_rejected_before_tx` -/
+
+theorem addSigsFrom_invalid {D} (t : TxCtx D) : ∀ (bs : List BIn) (ds : List D) (ss : List SigC) (i j : Nat),
+    bs.length = ss.length → ds.length = ss.length → j < ss.length →
+    (∀ b d s, bs[j]? = some b → ds[j]? = some d → ss[j]? = some s → t.verify s.pk s.der d = false) →
+    ∃ e, addSigsFrom t i bs ds ss = .error e := by
+  intro bs
+  induction bs with
+  | nil => intro ds ss i j h1 h2 hj _; simp at h1; omega
+  | cons b bs ih =>
+    intro ds ss i j h1 h2 hj hbad
+    cases ss with
+    | nil => simp at hj
+    | cons s ss =>
+    cases ds with
+    | nil => simp at h2
+    | cons d ds =>
+      simp only [addSigsFrom]
+      by_cases hv : t.verify s.pk s.der d = true
+      · simp only [hv, Bool.not_true, Bool.false_eq_true, if_false]
+        cases hu : unlockFor b s with
+        | none => exact ⟨_, rfl⟩
+        | some u =>
+          simp only []
+          match j with
+          | 0 =>
+            have := hbad b d s rfl rfl rfl
+            rw [this] at hv; cases hv
+          | j + 1 =>
+            obtain ⟨e, he⟩ := ih ds ss (i + 1) j (by simpa using h1) (by simpa using h2)
+              (by simpa using hj) (by intro b' d' s' h1' h2' h3'; exact hbad b' d' s' (by simpa using h1') (by simpa using h2') (by simpa using h3'))
+            rw [he]; exact ⟨e, rfl⟩
+      · simp [hv]
+
+/-- C27, second half: if the signature supplied for some input `j` does not verify against that
+    input's signature hash, `AddSignatures` returns an error — no transaction is produced. -/
+theorem bad_signature_rejected_before_tx {D} (t : TxCtx D) (bs : List BIn) (hashes : List D)
+    (sigs : List SigC) (j : Nat) (hlen : hashes.length = bs.length) (hj : j < sigs.length)
+    (hbad : ∀ d s, hashes[j]? = some d → sigs[j]? = some s → t.verify s.pk s.der d = false) :
+    ∃ e, addSignatures t bs hashes sigs = .error e := by
+  unfold addSignatures
+  by_cases h0 : hashes.length = 0
+  · exact ⟨.noHashes, by simp [h0]⟩
+  · by_cases h1 : sigs.length ≠ bs.length
+    · exact ⟨.sigCount, by simp [h0, h1]⟩
+    · simp only [h0, h1, if_false]
+      have h1' : sigs.length = bs.length := by omega
+      exact addSigsFrom_invalid t bs hashes sigs 0 j (by omega) (by omega) hj
+        (fun b d s _ hd hs => hbad d s hd hs)
+
+/-! ## Monitor tie and non-vacuity -/
+
+/-- the monitor accepts a transaction all of whose inputs were accepted … -/
+theorem holds_all_accepted (n : Nat) :
+    holds (List.replicate n true) true (List.replicate n true) = true := by
+  simp [holds]
+
+/-- … and rejects any produced transaction when some signature did not verify, whatever the
+    verdicts (this is the branch `bad_signature_rejected_before_tx` discharges for the model). -/
+theorem holds_bad_sig_needs_no_tx (sigOk : List Bool) (vs : List Bool) (h : sigOk.all id = false) :
+    holds sigOk true vs = false := by
+  simp [holds, h]
+
+def exPk : Bytes := 0x02 :: List.replicate 32 5
+
+/-- a context in which every signature verifies -/
+def exCtx : TxCtx Unit :=
+  { hash160 := fun _ => List.replicate 20 0xaa, sha256 := fun _ => List.replicate 32 0xbb,
+    sigEnc := fun _ => none, parsePk := fun _ => true, sighash := fun _ _ _ _ _ => (),
+    verify := fun _ _ _ => true }
+
+/-- the hypotheses of `input_spends_p2wpkh` are satisfiable -/
+example : WalletSig exCtx 0 ⟨.pkh, p2wpkh (exCtx.hash160 exPk), 5000, []⟩ exPk [0x30] :=
+  ⟨rfl, by decide, by decide, rfl, fun _ _ => rfl⟩
+
+/-- and with a verifier that rejects, `AddSignatures` yields no transaction -/
+example : (match addSignatures { exCtx with verify := fun _ _ _ => false }
+    [⟨true, [], 1, [], []⟩] [()] [⟨exPk, [0x30]⟩] with
+    | .error (.invalidSig 0) => true
+    | _ => false) = true := by decide
+
 end KeepVerif.C27
